@@ -20,7 +20,7 @@ def design_level(out, tier):
         if res.error or res.violation:
             raise MachineryError('design model MCThrottle_%s: %s %s\n%s' % (name, res.error, res.violation, res.out[-1500:]))
         out.add_tlc('MCThrottle_%s.cfg' % name, res, what + '; RateBound, TallyBounded, EventuallyThrough')
-    res = run_tlc('MCThrottle.tla', 'MCThrottle_nocap.cfg', workers=4, timeout=300)
+    res = run_tlc('MCThrottle.tla', 'MCThrottle_nocap.cfg', workers=1, timeout=300)
     if res.violation not in ('TallyBounded', 'RateBound'):
         raise MachineryError('MCThrottle_nocap was expected to violate TallyBounded or RateBound, got %s %s' % (res.violation, res.error))
     rej = ['nocap (refilled tally not capped at count) violates %s' % res.violation]
@@ -28,7 +28,7 @@ def design_level(out, tier):
     if res.error or res.violation:
         raise MachineryError('design model MCAverager_ok: %s %s\n%s' % (res.error, res.violation, res.out[-1500:]))
     out.add_tlc('MCAverager_ok.cfg', res, '3 clients, values {1,2}, <= 5 operations add/get/pop; EveryAddCounted, AllAddsFinish')
-    res = run_tlc('MCAverager.tla', 'MCAverager_dev.cfg', workers=4, timeout=300)
+    res = run_tlc('MCAverager.tla', 'MCAverager_dev.cfg', workers=1, timeout=300)
     if res.violation != 'EveryAddCounted':
         raise MachineryError('MCAverager_dev was expected to violate EveryAddCounted, got %s %s' % (res.violation, res.error))
     rej.append('Averager.add without its transaction block violates EveryAddCounted (lost update)')
